@@ -47,6 +47,11 @@ ASSUMPTIONS = [
     "does not say which wins: the entry must equal one of them (labelled conflict)",
     "small models: every vertex distance stays >= 1.2e-5 (100 x the library's merge tolerance 1e-7); arc kinds are left "
     "out there because the library's absolute collinearity tolerance drops small arcs (known finding C08-N2)",
+    "predefined shapes: the sketch is read as the user's description - someone who asks for a Cylinder describes smooth "
+    "core curves - so the clause on the point order of spline/polyLine entries applies to them; what the smooth curve "
+    "is, is not modelled: the polygon first vertex - points - second vertex has to be shorter (by > 1e-6 size) than "
+    "with the points reversed, and the first point nearer to the first vertex than the last point is (not: nearer "
+    "to the first vertex than to the second - ovals with long straight sides list points on the bend only)",
     "write histories (write twice / assemble+backport / assemble+clear / write+clear, then the judged write) are drawn in "
     "every model cell; the slid-vertices cell keeps new vertex positions inside the original edge (first 35 % / last "
     "35 % of the curve between the old vertices)",
@@ -958,6 +963,128 @@ def check_shared_array(case, ctx: Ctx) -> None:
                   else "holder-turned")
 
 
+# --------------------------------------------------------------------------------------------------
+# predefined sketches that carry spline / polyLine edges: the points run with the entry
+
+PREDEFINED = ["Cylinder", "Frustum", "Elbow", "SemiCylinder", "Hemisphere", "QuarterDisk", "HalfDisk", "FourCoreDisk",
+              "SplineDisk", "HalfSplineDisk", "QuarterSplineDisk", "SplineRing", "HalfSplineRing", "QuarterSplineRing"]
+
+
+@st.composite
+def predefined_case(draw):
+    ax = [draw(st.floats(-1, 1)) for _ in range(3)]
+    if max(abs(x) for x in ax) < 0.1:
+        ax[2] = 1.0
+    step = st.one_of(
+        st.just(["invert"]),
+        st.tuples(st.just("mirror"), st.sampled_from([[1, 0, 0], [0, 0, 1], [0.3, -0.5, 0.8]]),
+                  st.tuples(st.floats(-2, 2), st.floats(-2, 2), st.floats(-2, 2)).map(list)).map(list),
+        st.tuples(st.just("rotate"), st.floats(-3, 3), st.sampled_from([[0, 0, 2.5], [1, 1, 0.5], [0, 1, 0]]),
+                  st.tuples(st.floats(-2, 2), st.floats(-2, 2), st.floats(-2, 2)).map(list)).map(list),
+    )
+    return {"shape": draw(st.sampled_from(PREDEFINED)), "size": 10.0 ** draw(st.floats(-1.0, 1.5)),
+            "centre": [draw(st.floats(-5, 5)) for _ in range(3)], "rot": [*ax, draw(st.floats(-math.pi, math.pi))],
+            "ratio": draw(st.floats(0.6, 1.8)),  # second radius / corner relative to the first
+            "length": draw(st.floats(0.3, 3.0)),
+            "sides": [draw(st.sampled_from([0.0, 0.0, 0.2, 0.45]) | st.floats(0.05, 0.5)) for _ in range(2)],
+            "widths": [draw(st.floats(0.15, 0.4)) for _ in range(2)],
+            "after": draw(st.lists(step, min_size=0, max_size=2))}
+
+
+def build_predefined(case):
+    from classy_blocks.construct.flat.sketches import disk as dk
+    from classy_blocks.construct.flat.sketches import spline_round as sr
+
+    S = case["size"]
+    R = rodrigues(case["rot"][:3], case["rot"][3])
+    c = np.array(case["centre"], float) * S
+
+    def P(x, y, z):  # local frame: e1, e2 in the sketch plane, e3 the normal
+        return c + S * (R @ np.array([x, y, z], float))
+
+    def V(x, y, z):
+        return R @ np.array([x, y, z], float)
+
+    name, q, ln = case["shape"], case["ratio"], case["length"]
+    s1, s2 = case["sides"][0], case["sides"][1] * q
+    w1, w2 = case["widths"][0] * (1 - case["sides"][0]), case["widths"][1] * (q - s2)
+    if name == "Cylinder":
+        return cb.Cylinder(P(0, 0, 0), P(0, 0, ln), P(1, 0, 0))
+    if name == "Frustum":
+        return cb.Frustum(P(0, 0, 0), P(0, 0, ln), P(1, 0, 0), S * q)
+    if name == "Elbow":
+        return cb.Elbow(P(0, 0, 0), P(1, 0, 0), V(0, 0, 1), math.pi / 3 * min(ln, 2.5), P(3, 0, 0), V(0, 1, 0), S * q)
+    if name == "SemiCylinder":
+        return cb.SemiCylinder(P(0, 0, 0), P(0, 0, ln), P(1, 0, 0))
+    if name == "Hemisphere":
+        return cb.Hemisphere(P(0, 0, 0), P(1, 0, 0), V(0, 0, 1))
+    if name in ("QuarterDisk", "HalfDisk", "FourCoreDisk"):
+        sketch = getattr(dk, name)(P(0, 0, 0), P(1, 0, 0), V(0, 0, 1))
+    elif name.endswith("Ring"):
+        sketch = getattr(sr, name)(P(0, 0, 0), P(1, 0, 0), P(0, q, 0), S * s1, S * s2, S * w1, S * w2)
+    else:
+        sketch = getattr(sr, name)(P(0, 0, 0), P(1, 0, 0), P(0, q, 0), S * s1, S * s2)
+    return cb.ExtrudedShape(sketch, S * ln)
+
+
+def check_predefined(case, ctx: Ctx) -> None:
+    facts: Dict[str, Any] = {"shape": case["shape"], "after": [a[0] for a in case["after"]], "sides": case["sides"]}
+    try:
+        shape = build_predefined(case)
+        S = case["size"]
+        for a in case["after"]:
+            if a[0] == "invert":
+                for op in shape.operations:
+                    op.invert()
+            elif a[0] == "mirror":
+                shape.mirror(a[1], S * np.array(a[2]))
+            else:
+                shape.rotate(a[1], a[2], S * np.array(a[3]))
+        for op in shape.operations:
+            for ax in range(3):
+                op.chop(ax, count=2)
+        mesh = cb.Mesh()
+        mesh.add(shape)
+        text, _ = lt.write_text(mesh)
+    except Exception as ex:
+        raise Violation("write-failed", f"predefined shape was not written: {type(ex).__name__}: {ex}", **facts) from None
+    try:
+        bmd = lt.parse(text)
+    except FoamParseError as ex:
+        raise Violation("unparsable", f"written file does not parse: {ex}", **facts) from None
+    n = 0
+    for e in bmd.edges:
+        if e.kind not in xe.POINT_KINDS:
+            continue
+        n += 1
+        a, b = np.array(bmd.vertices[e.a].pos), np.array(bmd.vertices[e.b].pos)
+        pts = [np.array(q) for q in e.payload]
+        forward = xe.polyline_length([a, *pts, b])
+        backward = xe.polyline_length([a, *pts[::-1], b])
+        f2 = dict(facts, entry=[e.kind, e.a, e.b], forward=forward, backward=backward)
+        # 8 printed decimals: each of the <= 25 segments is off by at most 2e-8
+        if not forward < backward - 1e-6 * case["size"]:
+            raise Violation("points-against-entry-direction",
+                            f"{e.kind} {e.a} {e.b}: the polygon vertex-points-vertex is {forward:.6g} long, with the points "
+                            f"reversed {backward:.6g}: the points run from the second vertex to the first", **f2)
+        # (a first point nearer to the second vertex than to the first is legitimate: ovals list points on the bend only)
+        if len(pts) > 1 and not np.linalg.norm(pts[0] - a) < np.linalg.norm(pts[-1] - a):
+            raise Violation("points-against-entry-direction", f"{e.kind} {e.a} {e.b}: the last point is nearer to the "
+                            "entry's first vertex than the first point", **f2)
+    ctx.nt(n > 0)
+    ctx.label("shape:" + case["shape"], "entries=%d" % n)
+    for a in case["after"]:
+        ctx.label("after:" + a[0])
+    if case["shape"].startswith(("Spline", "HalfSpline", "QuarterSpline")):
+        ctx.label("sides:" + "/".join("zero" if x == 0 else "nonzero" for x in case["sides"]))
+
+
+PREDEFINED_GRID = [{"shape": name, "size": 1.0, "centre": [0.0, 0.0, 0.0], "rot": [0.3, -0.5, 0.8, 0.4 * i], "ratio": 1.5,
+                    "length": 1.0, "sides": sides, "widths": [0.3, 0.3], "after": []}
+                   for i, name in enumerate(PREDEFINED) for sides in ([0.0, 0.0], [0.3, 0.2])
+                   if sides[0] == 0.0 or "Spline" in name]
+
+
 CELLS = [
     Cell("C07/single/as-drawn", single_case(xe.ALL_VALID), check_model, 300, 12000,
          "one operation, 1-3 user edges of any kind on face (before shift/reorient/double-invert), opposite face, "
@@ -995,6 +1122,11 @@ CELLS = [
          "face of one) that are then moved to their places with the in-place translate(): every entry = the user's "
          "points + its holder's own offset, wire lengths unchanged, the caller's array untouched; non-trivial: given as "
          "an array (lists are always copied)"),
+    Cell("C07/predefined/spline-direction", predefined_case(), check_predefined, 100, 4000,
+         "shapes lofted from every predefined sketch that carries spline / polyLine edges (disk sketches through "
+         "Cylinder, Frustum, Elbow, SemiCylinder, Hemisphere, ExtrudedShape; spline disks and rings with sides zero and "
+         "non-zero), placed anywhere, optionally inverted / mirrored / rotated: in every spline / polyLine entry the "
+         "points run from the first vertex to the second", fixed_cases=PREDEFINED_GRID),
     Cell("C07/projection/sequences", projection_case(), check_projection, 400, 12000,
          "2-6 project_side(.., edges=True/False) / project_edge calls in drawn order on one or two operations; the label "
          "set of each of the 12 edges follows from the call list (at most two per edge by construction); valid "
